@@ -96,6 +96,7 @@ type Exec struct {
 	SimCount   int
 	Leaked     bool
 	StmtYields bool
+	StmtAll    bool // statement-level yields inside package bgzf too
 	Procs      int
 	MaxSteps   int
 	Results    []simhook.Result
@@ -166,17 +167,23 @@ func (x *Exec) RunSim(name string, estSteps int, client func()) simhook.Result {
 	maxSteps := x.MaxSteps
 	if maxSteps == 0 {
 		maxSteps = 40*estSteps + 100000
+		if x.StmtAll {
+			// every statement of package bgzf is a scheduling point in this
+			// run: the same work takes far more steps
+			maxSteps *= 40
+		}
 	}
 	cfg := simhook.Config{
 		Pick: func(r []simhook.GInfo, last int, lr bool) int {
 			return pol.pick(x.Tape, r, last, lr)
 		},
-		Choose:     func(stream string, n int) int { return x.Tape.Draw(stream, n) },
-		Quiesce:    synctest.Wait,
-		MaxSteps:   maxSteps,
-		Procs:      x.Procs,
-		StmtYields: x.StmtYields,
-		Trace:      x.Trace,
+		Choose:        func(stream string, n int) int { return x.Tape.Draw(stream, n) },
+		Quiesce:       synctest.Wait,
+		MaxSteps:      maxSteps,
+		Procs:         x.Procs,
+		StmtYields:    x.StmtYields,
+		StmtYieldsAll: x.StmtAll,
+		Trace:         x.Trace,
 	}
 	var sim *simhook.Sim
 	func() {
